@@ -12,6 +12,7 @@ from .. import classify, drive, hist, world
 from ..oracle import ignoreref, xmlread
 from .c07 import _printed
 
+VERBOSITY = False  # stdout of verify -dh -co is parsed / runs must be identical
 LEVEL = "exploration"
 RULE = (
     "case = tree with pattern fodder x 1-5 generations, each adding patterns via -i (repeated, duplicates) and/or an -ii file, "
